@@ -87,6 +87,9 @@ type Lemma struct {
 	Requires  []*Clause
 	Ensures   []*Clause
 	Decreases Expr
+	Inst      map[string]string // "instance p = q": when the lemma is used as an axiom, parameter p is instantiated with q
+	Trigger   bool     // "trigger": the axiom form gets the conclusion's spec applications as its pattern
+	Fixed     []string // parameters held fixed in the induction hypothesis ("decreases e fixed a b")
 	Uses      []string
 	Lets      []letDef
 	Slow      bool
@@ -121,7 +124,7 @@ func newSpecs() *Specs {
 	return &Specs{Funcs: map[string]*FuncContract{}, SpecFuncs: map[string]*SpecFunc{}, Lemmas: map[string]*Lemma{}, Ghosts: map[string]*GhostComp{}, Macros: map[string]*Macro{}, TagSets: map[string][]string{}}
 }
 
-var keywordRe = regexp.MustCompile(`^(func|extern|requires|ensures|modifies|loop|at|let|opt|spec|ghost|lemma|use|decreases|define|split|tagset)\b`)
+var keywordRe = regexp.MustCompile(`^(func|extern|requires|ensures|modifies|loop|at|let|opt|spec|ghost|lemma|use|decreases|define|split|tagset|instance|trigger)\b`)
 var tagRe = regexp.MustCompile(`^\[([A-Za-z0-9, ]*)\]\s*`)
 var labelRe = regexp.MustCompile(`^([A-Za-z_][A-Za-z0-9_.]*):\s*`)
 
@@ -257,9 +260,30 @@ func (sp *Specs) loadFile(path string, commentOnly bool) error {
 			} else {
 				return fail(fmt.Errorf("clause outside block"))
 			}
+		case "trigger":
+			if curLemma == nil {
+				return fail(fmt.Errorf("trigger outside lemma"))
+			}
+			curLemma.Trigger = true
+		case "instance":
+			if curLemma == nil {
+				return fail(fmt.Errorf("instance outside lemma"))
+			}
+			fs := strings.Fields(rest)
+			if len(fs) != 3 || fs[1] != "=" {
+				return fail(fmt.Errorf("instance p = q"))
+			}
+			if curLemma.Inst == nil {
+				curLemma.Inst = map[string]string{}
+			}
+			curLemma.Inst[fs[0]] = fs[2]
 		case "decreases":
 			if curLemma == nil {
 				return fail(fmt.Errorf("decreases outside lemma"))
+			}
+			if i := strings.Index(rest, " fixed "); i >= 0 {
+				curLemma.Fixed = strings.Fields(rest[i+7:])
+				rest = rest[:i]
 			}
 			e, err := parseExpr(rest)
 			if err != nil {
